@@ -210,6 +210,12 @@ func runC11(b *runner.Batch) {
 						roleName = "parent-owner-only"
 					}
 				}
+			case k == 4 && len(l) > 2 && r.IntN(2) == 0:
+				// the new owner witnesses, but nobody who controls the enclosing name does
+				p := e.m.names[strings.Join(l[1:], ".")]
+				if p != nil && e.userIdx(p.owner) != newOwner && (p.admin == nil || e.userIdx(p.admin) != newOwner) {
+					roleName = "new-owner-without-parent-controller"
+				}
 			case k == 4:
 				users = []int{(newOwner + 1) % 3}
 				roleName = "another-user"
